@@ -75,7 +75,9 @@ func validHeaders(thorough bool) []Header {
 	for _, b := range baseTypes {
 		for cv := range caseNames {
 			for si, s := range suffixes {
-				full := thorough && b != "application/jsonx" && b != "image/png"
+				// thorough: full case x parameter-spelling product for the four listed/default-reachable types,
+				// except that the Title-case variant is only sent bare
+				full := thorough && b != "application/jsonx" && b != "image/png" && cv != 2
 				if !full && !(cv == 0 || si == 0 || (cv == 1 && (si == 2 || si == 9))) {
 					// quick (and the two never-exactly-listed types in thorough): every case variant bare,
 					// every parameter spelling in lower case, two mixed; otherwise the full product
@@ -269,7 +271,7 @@ func main() {
 	// own wall budget well inside the tier limits (60 s / 10 min); reaching it ends the run as not exhaustive
 	limit := 45 * time.Second
 	if thorough {
-		limit = 8 * time.Minute
+		limit = 8*time.Minute + 45*time.Second
 	}
 	begin := time.Now()
 	var cut atomic.Bool
